@@ -2460,6 +2460,7 @@ func (s *swamp) Destroy() {
 	// release their vigils, and (because closing=1 already gates SummonSwamp)
 	// no new vigils can be started in the meantime.
 	s.Vigil.WaitForActiveVigilsClosed()
+	verifhook.Point("swamp.destroy.afterDrain")
 
 	slog.Debug("Destroy: vigils closed", "swamp", swampName)
 
@@ -2671,6 +2672,7 @@ func (s *swamp) DeleteTreasure(key string, shadowDelete bool) error {
 	// destroy the swamp if there is no treasure in it
 	if s.beaconKey.Count() == 0 {
 		// feloldjuk a vigiliát, mert nincs több treasure a swampban és a Destroy megkövetelei a Vigil feloldását
+		verifhook.Point("swamp.autodestroy.beforeDestroy")
 		s.CeaseVigil()
 		s.Destroy()
 		return nil
@@ -2709,6 +2711,7 @@ func (s *swamp) CloneAndDeleteExpiredTreasures(howMany int32) ([]treasure.Treasu
 	if remainingCount == 0 {
 		slog.Info("CloneAndDeleteExpiredTreasures: auto-destroying empty swamp",
 			"swamp", s.name.Get())
+		verifhook.Point("swamp.autodestroy.beforeDestroy")
 		s.CeaseVigil()
 		s.Destroy()
 	}
@@ -2780,6 +2783,7 @@ func (s *swamp) CloneAndDeleteMatchingTreasures(beaconType BeaconType, order Bea
 
 	// Auto-destroy on empty, mirroring CloneAndDeleteExpiredTreasures.
 	if s.beaconKey.Count() == 0 {
+		verifhook.Point("swamp.autodestroy.beforeDestroy")
 		s.CeaseVigil()
 		s.Destroy()
 	}
@@ -2840,6 +2844,7 @@ func (s *swamp) CloneAndDeleteTreasuresByKeys(keys []string) ([]treasure.Treasur
 
 	// destroy the swamp if there is no treasure in it
 	if s.beaconKey.Count() == 0 {
+		verifhook.Point("swamp.autodestroy.beforeDestroy")
 		s.CeaseVigil()
 		s.Destroy()
 	}
@@ -3578,6 +3583,7 @@ func (s *swamp) startCloseListener() {
 			// goroutines are finished their work
 			currentTime := time.Now()
 			lastInteractionTime := time.Unix(0, atomic.LoadInt64(&s.lastInteractionTime))
+			verifhook.Point("swamp.closeListener.afterRead")
 
 			func() {
 
@@ -3592,12 +3598,14 @@ func (s *swamp) startCloseListener() {
 				// és ezt kjövetően már be is lehet zárni a swampot
 				if atomic.LoadInt32(&s.inMemorySwamp) == 1 {
 					if !s.Vigil.HasActiveVigils() && atomic.LoadInt32(&s.closing) == 0 && currentTime.After(lastInteractionTime.Add(s.closeAfterIdle+closeGapDuration)) {
+						verifhook.Point("swamp.closeListener.beforeClose")
 						s.Close()
 					}
 				} else {
 					if atomic.LoadInt32(&s.isFilesystemWritingActive) == 0 && !s.Vigil.HasActiveVigils() && atomic.LoadInt32(&s.closing) == 0 && currentTime.After(lastInteractionTime.Add(s.closeAfterIdle+closeGapDuration)) {
 						// a swampot éppp nem írja senki, nincs aktív tranzakció, nem zárjuk éppen le és megfelelünk annak a követelménynek is, hogy
 						// az utoljára történt interakció óta eltelt idő nagyobb legyen mint a closeAfterIdle, így a swamp leállítható biztonságosan
+						verifhook.Point("swamp.closeListener.beforeClose")
 						s.Close()
 					}
 				}
